@@ -35,6 +35,17 @@ def run(tier, seed):
     CREF = lambda d: dict(name="C19_refused_rearm_" + ("def" if d else "imm"), scripts=bc.conn_refused_family(),
                           consts=bc.consts("sock", DIRA, 9, sizes=(1, 2), wms=((0, 0),), durs=(0,), drains=(0, 99),
                                            conn="refused", defer=d))
+    # directed (C10's bufferevent clause): released from inside its own callback + event_base_loopbreak, then
+    # event_base_free: every finalizer / free_context exactly once, nothing afterwards (ASan watches the releases)
+    FB = lambda k: dict(name="C19_free_break_" + k, scripts=bc.free_break_family(k),
+                        consts=bc.consts(k, {"write", "enable", "loop", "script", "flush", "finish", "basefree"}, 9, sizes=(1, 2),
+                                         wms=((0, 0),), durs=(0,), drains=(0, 99), extras=("none", "freebrk"),
+                                         xkinds=("r", "w", "e"), defer=(k == "sock")))
+    # directed: flush on a pair endpoint whose partner is already freed keeps no reference: the survivor is finalized
+    # exactly once (cleanup count of a by-reference chunk in its output, observed at event_base_free)
+    FSV = dict(name="C19_flush_survivor", scripts=bc.flush_survivor_family(),
+               consts=bc.consts("pair", {"write", "writeref", "enable", "loop", "flush", "finish", "free", "basefree"}, 9, sizes=(1, 2),
+                                wms=((0, 0),), durs=(0,), drains=(0, 99)))
     quick_gen = [
         # every 5-step history of connect / enable / write / loop on a connecting socket (immediate callbacks): the bounded
         # model check of the quick tier (every 4th history is replayed); the histories that meet the known finding's trigger are its canonical scenarios
@@ -42,7 +53,7 @@ def run(tier, seed):
         dict(name="C19_conn_refused_" + ("def" if df else "imm"), consts=C("refused", df, 6), simulate=12),
         dict(name="C19_pair_free", consts=PF(9), simulate=40),
         dict(name="C19_sock_free", consts=SF(9), simulate=20) if seed % 2 else dict(name="C19_filt_free", consts=FF(9), simulate=20),
-        CDEF, CREF(df),
+        CDEF, CREF(df), FB("pair"), FB("filt"), FB("sock"), FSV,
     ]
     plan = {
         "mc": [] if q else [("C19_mc_pair", bc.consts("pair", LIFE | {"flush", "finish"}, 5, sizes=(1,), drains=(0, 99), wms=((0, 0),),
@@ -55,7 +66,7 @@ def run(tier, seed):
             dict(name="C19_pair_free", consts=PF(12), simulate=400),
             dict(name="C19_filt_free", consts=FF(12), simulate=200),
             dict(name="C19_sock_free", consts=SF(12), simulate=300),
-            CDEF, CREF(False), CREF(True),
+            CDEF, CREF(False), CREF(True), FB("pair"), FB("filt"), FB("sock"), FSV,
         ],
         "known": [] if q else [known],
         "monitor_by_kind": {k: bc.mon_c19(k) for k in ("pair", "filt", "sock")},
